@@ -10,6 +10,7 @@ deriving DecidableEq, Repr, Inhabited
 inductive Ev
   | started (t : Nat) (a : ArgD) | sawCancel (t : Nat) | returned (t : Nat) | raised (t : Nat)
   | resumed (t : Nat)                 -- the worker caught a `CancelledError` and went on (awaits a fresh future)
+  | next (t : Nat)                    -- the future the worker awaited completed; the worker went on to its next await
   | cancelCb (t r c e : Nat) (k : Option Err) | cancelCbDone (t : Nat) | cancelCbRaised (t : Nat) | cancelCbKilled (t : Nat)
   | endCb (t r c e : Nat) (k : Option Err) | endCbDone (t : Nat) | endCbRaised (t : Nat) | endCbKilled (t : Nat)
   | pull (m k : Nat)
@@ -412,7 +413,8 @@ def stepCreated (p : Pool) (t : Nat) (tk : PTask) : Pool :=
     match r.wspec.mode with
     | .retNow => p.afterWorker t none
     | .raiseNow e => p.afterWorker t (some e)
-    | .gated => p.suspendTask t .inWorker
+    -- the worker reaches its first suspension point; `awaits` more are to come
+    | .gated => (p.modTask t fun k => { k with awaitsLeft := r.wspec.awaits }).suspendTask t .inWorker
 
 /-- the worker sees a `CancelledError` at its suspension point -/
 def workerCancelled (p : Pool) (t : Nat) (tk : PTask) : Pool :=
@@ -424,11 +426,16 @@ def workerCancelled (p : Pool) (t : Nat) (tk : PTask) : Pool :=
   let p := (p.logEv (.sawCancel t)).modTask t fun k => { k with sawCancel := true, phase := .wrapUp, nSaw := k.nSaw + 1 }
   if (p.reqOf tk).wspec.swallow then p.afterWorker t none else p.taskCancellation t tk
 
+/-- the future the worker awaited completed normally and the worker has a further suspension point: it awaits a fresh
+future. For the pool the task is running as before (its wrapper has seen nothing) -/
+def workerNext (p : Pool) (t : Nat) : Pool :=
+  ((p.logEv (.next t)).modTask t fun k => { k with awaitsLeft := k.awaitsLeft - 1 }).suspendTask t .inWorker
+
 def stepInWorker (p : Pool) (t : Nat) (tk : PTask) : Pool :=
   if tk.fut == .cancelled || tk.mustCancel then
     (p.modTask t fun k => { k with mustCancel := false }).workerCancelled t tk
   else match tk.fut with
-    | .ok => p.afterWorker t none
+    | .ok => if tk.awaitsLeft > 0 then p.workerNext t else p.afterWorker t none
     | .exc e => p.afterWorker t (some e)
     | _ => p
 
